@@ -10,6 +10,7 @@ import time
 import gen_decls
 from common import (BVSIM, HarnessError, NCPU, Outcome, Rng, SHIM, corpus_jobs, fp, log, run_requests)
 
+SHIM_ENV = {"LD_PRELOAD": SHIM, "BVSIM_GETRANDOM_SEED": "1"}
 OBS_KEYS = ("kind", "fp", "cb_fp", "cb_n", "side_fp", "side_n")
 
 
@@ -18,6 +19,8 @@ def obs_of(r):
 
 
 def job_key(j):
+    if "key" in j:
+        return j["key"]
     return fp(json.dumps({k: j.get(k) for k in ("header", "flags", "corpus", "callbacks", "inline")}, sort_keys=True))
 
 
@@ -62,6 +65,9 @@ def build_pool(seed, scratch, tier):
                                                   "--wrap-static-fns-suffix", "_w"], outdir="@INST@")
     add("depfile", "includes.h", ["--depfile", "@OUT@/out.d", "--output", "@OUT@/out.rs"], outdir="@INST@")
     add("depfile-b", "inc2.h", ["--depfile", "@OUT@/b.d", "--output", "@OUT@/b.rs"], outdir="@INST@")
+    for nm, hdr in (("a", "includes.h"), ("b", "inc2.h"), ("c", "macros.h"), ("d", "static_fns.h")):
+        add(f"depfile-shared-dir-{nm}", hdr, ["--depfile", f"@SHARED@/{nm}.d", "--output", f"@SHARED@/{nm}.rs"],
+            watch=[f"@SHARED@/{nm}.d"])
     add("macros", "macros.h", [])
     add("macros-fallback-own-dir", "macros.h", ["--clang-macro-fallback", "--clang-macro-fallback-build-dir", "@OUT@"], outdir="@INST@")
     add("macros2-fallback-own-dir", "macros2.h", ["--clang-macro-fallback", "--clang-macro-fallback-build-dir", "@OUT@"], outdir="@INST@")
@@ -98,6 +104,8 @@ def build_pool(seed, scratch, tier):
     for j in rng.sample(cj, 90 if tier == "quick" else len(cj)):
         j = dict(j, callbacks=True, id="corpus:" + j["id"])
         pool.append(j)
+    for j in pool:
+        j["key"] = job_key(j)
     return pool
 
 
@@ -135,11 +143,18 @@ def run_one(req, workdir, tag, env_extra=None, no_aslr=False, timeout=300):
     return obs
 
 
-def instantiate(job, scratch, inst):
-    """Give a job instance its own output directory."""
+def instantiate(job, scratch, inst, shared=None):
+    """Give a job instance its own output directory; `@SHARED@` is a directory
+    shared by all generations of one scenario (as in a `make -j` build that
+    writes several depfiles into one directory)."""
     j = dict(job)
     if j.get("outdir") == "@INST@":
         j["outdir"] = os.path.join(scratch, "out", inst)
+    sh = shared or os.path.join(scratch, "shared", inst)
+    if any("@SHARED@" in f for f in j["flags"]):
+        os.makedirs(sh, exist_ok=True)
+        j["flags"] = [f.replace("@SHARED@", sh) for f in j["flags"]]
+        j["watch"] = [w.replace("@SHARED@", sh) for w in j.get("watch", [])]
     return j
 
 
@@ -196,6 +211,11 @@ def run(tier, seed):
         usable = [j for j in pool if table[job_key(j)].get("kind") in ("ok", "err")]
         fast = [j for j in usable if not j["id"].startswith("corpus:") or os.path.getsize(j["header"]) < 20000]
         stats["distinct_jobs"] = len(usable)
+        contention_groups = [g for g in (
+            [j for j in fast if j["id"].startswith("depfile-shared-dir")],
+            [j for j in fast if "fallback-default-dir" in j["id"] or
+             ("--clang-macro-fallback" in j["flags"] and "--clang-macro-fallback-build-dir" not in j["flags"])],
+        ) if len(g) >= 2]
 
         def check_results(scn, resp, tier_name):
             """Compare every job of a scenario with the table."""
@@ -235,26 +255,34 @@ def run(tier, seed):
 
         inst = [0]
 
+        shared_dir = [None]
+
+        def new_scenario():
+            inst[0] += 1
+            shared_dir[0] = os.path.join(scratch, "shared", f"s{inst[0]}")
+
         def mk(job, perturb_rng=None):
             inst[0] += 1
-            j = instantiate(job, scratch, f"i{inst[0]}")
+            j = instantiate(job, scratch, f"i{inst[0]}", shared_dir[0])
             if perturb_rng is not None and perturb_rng.chance(150):
                 j = dict(j, fix={"seed": perturb_rng.next(), "stutter": 150, "dup": 200, "reorder": 600, "dedup": 300})
                 stats["jobs_under_worklist_perturbation"] += 1
             return j
 
         # ---------------------------------------------------- histories in one process, one thread
-        n_hist = 24 if quick else 1500
+        n_hist = 40 if quick else 1500
         scns = []
         for i in range(n_hist):
             rng = Rng.for_case(seed, "c11-history", i)
+            new_scenario()
             k = 1 + rng.below(12 if quick else 50)
             jobs = []
             anchor = rng.pick(fast)
             for _ in range(k):
                 jobs.append(mk(anchor if rng.chance(300) else rng.pick(fast), rng))
-            scns.append({"op": "c11", "threads": [jobs], "sched": None, "salt": rng.next() if rng.chance(500) else 0})
-        res = run_requests(scns, timeout=900, progress=200, cwd=cwd)
+            scns.append({"op": "c11", "threads": [jobs], "sched": None, "salt": rng.next() if rng.chance(500) else 0,
+                         "hash_seed": rng.next()})
+        res = run_requests(scns, timeout=900, progress=200, cwd=cwd, env=SHIM_ENV)
         for s, r in zip(scns, res):
             stats["history_scenarios"] += 1
             check_results(s, r, "history")
@@ -262,23 +290,31 @@ def run(tier, seed):
         log(f"[C11] histories done: {stats['generations']} generations, {stats['mismatches']} mismatches")
 
         # ---------------------------------------------------- threads under the deterministic scheduler
-        n_thr = 48 if quick else 4000
+        n_thr = 120 if quick else 4000
         scns = []
         for i in range(n_thr):
             rng = Rng.for_case(seed, "c11-threads", i)
+            new_scenario()
             nt = 2 + rng.below(7 if quick else 15)
             per = 1 + rng.below(3)
             same = rng.chance(300)
             anchor = rng.pick(fast)
             threads = []
+            # a third of the scenarios put generations that can meet on shared
+            # files (same output directory, same working directory) side by side
+            group = rng.pick(contention_groups) if contention_groups and rng.chance(330) else None
             for t in range(nt):
-                threads.append([mk(anchor if (same or rng.chance(200)) else rng.pick(fast), rng) for _ in range(per)])
+                if group:
+                    threads.append([mk(rng.pick(group), rng) for _ in range(per)])
+                else:
+                    threads.append([mk(anchor if (same or rng.chance(200)) else rng.pick(fast), rng) for _ in range(per)])
             sched = {"seed": rng.next(), "switch_permille": rng.pick([20, 100, 300, 700])}
             if rng.chance(300):
                 sched["pct_depth"] = 1 + rng.below(4)
                 sched["pct_horizon"] = 200 * nt
-            scns.append({"op": "c11", "threads": threads, "sched": sched, "salt": rng.next() if rng.chance(500) else 0})
-        res = run_requests(scns, timeout=900, progress=200, cwd=cwd)
+            scns.append({"op": "c11", "threads": threads, "sched": sched, "salt": rng.next() if rng.chance(500) else 0,
+                         "hash_seed": rng.next()})
+        res = run_requests(scns, timeout=900, progress=200, cwd=cwd, env=SHIM_ENV)
         for s, r in zip(scns, res):
             stats["thread_scenarios"] += 1
             check_results(s, r, "threads")
@@ -287,7 +323,7 @@ def run(tier, seed):
         log(f"[C11] thread scenarios done: {stats['generations']} generations, {stats['mismatches']} mismatches")
 
         # ---------------------------------------------------- separate processes: hash seeds, salts, ASLR
-        n_proc = 32 if quick else 2000
+        n_proc = 64 if quick else 2000
         work = os.path.join(scratch, "proc")
         os.makedirs(work, exist_ok=True)
         plist = []
@@ -316,9 +352,10 @@ def run(tier, seed):
             nofb = [j for j in fast if "fallback-default-dir" not in j["id"]]
             for i in range(200):
                 rng = Rng.for_case(seed, "c11-free", i)
+                new_scenario()
                 threads = [[mk(rng.pick(nofb)) for _ in range(3)] for _ in range(16)]
                 scns.append({"op": "c11", "threads": threads, "sched": None, "salt": 0})
-            res = run_requests(scns, timeout=1800, workers=2, progress=50, cwd=cwd)
+            res = run_requests(scns, timeout=1800, workers=2, progress=50, cwd=cwd, env=SHIM_ENV)
             for s, r in zip(scns, res):
                 stats["free_running"] += 1
                 check_results(s, r, "free-running")
@@ -359,7 +396,8 @@ EXPECTED_LABELS = ["libclang.enter", "libclang.not_loaded", "libclang.before_set
                    "parse_one", "gen.enter", "gen.before_analyses", "gen.after_analyses", "codegen.item",
                    "codegen.before_depfile", "codegen.before_serialize_items", "codegen.before_postprocessing",
                    "fallback_tu.before_pch_save", "fallback_tu.after_pch_save", "fallback_tu.file_created",
-                   "fallback_tu.created", "fallback_tu.before_reparse", "fallback_tu.drop"]
+                   "fallback_tu.created", "fallback_tu.before_reparse", "fallback_tu.drop",
+                   "sys.open-write", "sys.unlink"]
 
 
 def replay(doc):
@@ -381,7 +419,7 @@ def replay(doc):
                             for name, text in SPECIAL_HEADERS.items():
                                 with open(os.path.join(os.path.dirname(h), name), "w") as f:
                                     f.write(text)
-            r = run_requests([scn], workers=1, timeout=900, cwd=scratch)[0]
+            r = run_requests([scn], workers=1, timeout=900, cwd=scratch, env=SHIM_ENV)[0]
             if (r.get("sched") or {}).get("forced_mismatch"):
                 # The forced trace no longer fits (the tree changed, or the run
                 # depends on something outside the simulator such as file
@@ -389,7 +427,7 @@ def replay(doc):
                 # the scenario under its recorded scheduler seed.
                 log("[C11] forced trace diverged (" + r["sched"]["forced_mismatch"] + "); re-running by seed")
                 scn2 = dict(scn, sched={k: v for k, v in scn["sched"].items() if k != "forced"})
-                r = run_requests([scn2], workers=1, timeout=900, cwd=scratch)[0]
+                r = run_requests([scn2], workers=1, timeout=900, cwd=scratch, env=SHIM_ENV)[0]
             try:
                 got = r["results"][doc["thread"]]
                 for j, o in zip(scn["threads"][doc["thread"]], got):
